@@ -44,6 +44,8 @@ type UMsg struct {
 	// cPanic: the panic value is an *actor.InternalError (restart that does not
 	// use up the restart budget)
 	Internal bool
+	// cSpawnChild: observer of the stages of the SpawnChild call
+	Hook func(stage int)
 }
 
 func (m *UMsg) String() string {
@@ -428,7 +430,23 @@ func (s *scripted) obey(c *actor.Context, m *UMsg) {
 		panic(fmt.Sprintf("scripted crash on %s in %s inc %d", m, in.ID, s.inc))
 	case cSpawnChild:
 		env.ev("spawnchild", in.ID, m.Spec.FullID(), nil, nil)
-		c.SpawnChild(env.producer(m.Spec, in.ID), childName(in.ID, m.Spec), env.opts(m.Spec)...)
+		prod := env.producer(m.Spec, in.ID)
+		if m.Hook != nil {
+			// stage 0: call, 1: this call's Producer ran for the first time, 2: returned
+			inner, ran := prod, false
+			prod = func() actor.Receiver {
+				if !ran {
+					ran = true
+					m.Hook(1)
+				}
+				return inner()
+			}
+			m.Hook(0)
+		}
+		c.SpawnChild(prod, childName(in.ID, m.Spec), env.opts(m.Spec)...)
+		if m.Hook != nil {
+			m.Hook(2)
+		}
 		env.ev("spawnchild-ret", in.ID, m.Spec.FullID(), nil, nil)
 	case cSend:
 		// successive sends from one actor: numbered in the order the relay handles them
